@@ -303,6 +303,36 @@ def variable_head(ctx, cr):
         if builds and checks_var and len(inserts) >= 2:
             ok = True
     ctx.ob(rule, rule + ":inserts-all-indices", ok, "parser::access must insert QueryPart::AllIndices after a leading variable (is_variable test + Vec::insert of AllIndices)", fn=fs[0])
+    # a bare `%v` yields what the variable holds, entry by entry and unchanged: in the variable-head arm of query retrieval some path pushes
+    # the iterated stored entry itself (so a Literal binding stays Literal, as if the literal were written in place)
+    from rules.c08 import def_of_local
+    key = "rules::eval_context::query_retrieval_with_converter"
+    f = cr.fns.get(key)
+    if not f:
+        ctx.lost(rule, rule + ":bare-variable-identity", key)
+        return
+    QR = "rules::QueryResult"
+    each = [l for n, l in f["names"] if n == "each" and isinstance(l, int) and M.Ty(cr, f["locals"][l]).adt_path() == QR]
+    uses_var = any(M.norm_path(t["fn"].get("decl", "")).endswith("EvalContext::resolve_variable") for bi, t in M.iter_calls(f))
+    pushes_each = False
+    for bi, t in M.iter_calls(f):
+        if M.norm_path(t["fn"].get("path", "")) != "std::vec::Vec::push" or len(t["args"]) < 2:
+            continue
+        pl = M.op_place(t["args"][1])
+        for _ in range(4):
+            if pl is None or not isinstance(pl, int):
+                break
+            if pl in each:
+                pushes_each = True
+                break
+            d = def_of_local(f, pl)
+            if d and d[0] == "stmt" and d[2]["rv"]["r"] == "use":
+                pl = M.op_place(d[2]["rv"]["o"])
+            else:
+                break
+    ctx.ob(rule, rule + ":bare-variable-identity", uses_var and bool(each) and pushes_each,
+           "query retrieval resolves a leading variable but never hands a stored entry on as it is: a variable bound to a literal comes back as Resolved and `==` takes the query-to-query route instead of the literal one"
+           if not pushes_each else "the stored entry of a bare variable is pushed unchanged", fn=f)
 
 
 def emptiness_exception(ctx, cr):
@@ -375,6 +405,42 @@ def emptiness_exception(ctx, cr):
            sample={"cases": sorted("%s/%s -> %s" % (k[0], k[1], sorted(map(str, v))) for k, v in seen.items())})
 
 
+def call_evaluates_body(ctx, cr):
+    """`f(args)` is equivalent to its body with the parameters replaced: so every Ok return of eval_parameterized_rule_call comes after
+    exactly one evaluation of the called rule (eval_rule); a return that answers without evaluating the body — for example an early
+    SKIP when an argument selects nothing — makes the call differ from the inlined body"""
+    from engine import statusmon as S
+    rule = "R-C15-parameter-binding"
+    key = "rules::eval::eval_parameterized_rule_call"
+    f = cr.fns.get(key)
+    if not f:
+        ctx.lost(rule, rule + ":call-evaluates-body", key)
+        return
+
+    class H(S.StatusHooks):
+        def role_of(self, a, st, term, callee):
+            return "child" if callee.get("key") == "rules::eval::eval_rule" else None
+    h = H(cr, track_records=False)
+    a = ai.AI(cr, h, max_states=400000)
+    try:
+        a.run(key, mon=Mon())
+    except ai.Undecided as e:
+        ctx.ob(rule, rule + ":call-evaluates-body", False, "undecided %s" % e, fn=f)
+        return
+    ctx.states += a.n_states
+    bad = []
+    n = 0
+    for v, mon, tr in h.results:
+        kind, s_ = S.ret_status(v)
+        if kind != "ok":
+            continue
+        n += 1
+        ch = mon.get("child", frozenset())
+        if len(ch) != 1:
+            bad.append("returns Ok(%s) after %d evaluations of the called rule [%s]" % (s_, len(ch), S.trace_str(tr, 4)))
+    ctx.ob(rule, rule + ":call-evaluates-body", n >= 3 and not bad, "; ".join(sorted(set(bad))[:2]) or "%d Ok returns, each after one evaluation of the body" % n, fn=f)
+
+
 def run(ctx):
     cr = ctx.lib
     scope_chain(ctx, cr)
@@ -382,6 +448,7 @@ def run(ctx):
     parameter_binding(ctx, cr)
     variable_head(ctx, cr)
     emptiness_exception(ctx, cr)
+    call_evaluates_body(ctx, cr)
     ctx.assumptions += [
         "equivalence of a program with its inlined form is behavioural and not claimed; the emptiness test on a bare variable is the documented exception",
     ]
